@@ -227,6 +227,26 @@ def rule_E15(run: Run, prog: Program) -> int:
             for r_, kinds, _want in indexspec.domain(max_len=2, ranks=(rank,)):
                 idx = abstract_index(kinds)
                 attempt("__getitem__", lambda idx=idx: interp().call(fn_get, [t, idx]), {"t": t}, f"{desc}: {show(kinds)}")
+    # arithmetic: t + x, t - x, x + t, x - t, t * c, c * t, t / c, -t keep the index types of t; axes added by broadcasting are collection axes
+    ops = {name: prog.lookup(tcls, name) for name in ("__add__", "__sub__", "__radd__", "__rsub__", "__mul__", "__rmul__", "__truediv__", "__neg__")}
+    for f, cov, con in _layouts(3):
+        t = _tensor(tcls, f, cov, con, "t")
+        rank = f + len(cov) + len(con)
+        desc = f"t with {f} collection axes, covariant {cov}, contravariant {con}"
+        for name, m in ops.items():
+            if m is None:
+                continue
+            if name == "__neg__":
+                attempt("arithmetic", lambda m=m: interp().call(m, [t]), {"t": t}, f"{desc}: -t")
+                continue
+            if name in ("__mul__", "__rmul__", "__truediv__"):
+                attempt("arithmetic", lambda m=m: interp().call(m, [t, 2]), {"t": t}, f"{desc}: {name}(t, 2)")
+                continue
+            for xd in range(0, rank + 2):
+                x = absint.Arr(xd, "f") if xd else 2
+                attempt("arithmetic", lambda m=m, x=x: interp().call(m, [t, x]), {"t": t}, f"{desc}: {name}(t, array with {xd} axes)")
+            other = _tensor(tcls, f, cov, con, "u")
+            attempt("arithmetic", lambda m=m, other=other: interp().call(m, [t, other]), {"t": t, "u": other}, f"{desc}: {name}(t, tensor of the same type)")
     if fn_tp is not None:
         singles = [(cov, con) for f, cov, con in _layouts(2) if f == 0]
         for (ca, da), (cb, db) in itertools.product(singles, repeat=2):
@@ -234,7 +254,7 @@ def rule_E15(run: Run, prog: Program) -> int:
             attempt("tensor_product", lambda a=a, b=b: interp().call(fn_tp, [a, b]), {"a": a, "b": b},
                     f"a (covariant {ca}, contravariant {da}) x b (covariant {cb}, contravariant {db})")
     run.stats["index_type_cases"] = counts
-    loc_of = {"transpose": fn_t, "tensor_product": fn_tp, "copy": fn_copy, "__getitem__": fn_get, "expand_dims": fn_exp}
+    loc_of = {"transpose": fn_t, "tensor_product": fn_tp, "copy": fn_copy, "__getitem__": fn_get, "expand_dims": fn_exp, "arithmetic": ops.get("__add__")}
     for op in sorted(counts):
         fn = loc_of.get(op)
         loc = fn.loc if fn is not None else ""
